@@ -96,11 +96,6 @@ pub fn run(input: &Value) -> Case {
     };
     let mut j = input.clone();
     j["impl"] = rj;
-    // Known finding "axis-beyond-i64max": range_bounds works in i64 and saturates the axis length, so axes longer
-    // than i64::MAX (surfaces of zero-sized elements only) are resolved as if they had i64::MAX elements.
-    if n > i64::MAX as usize {
-        j["known_class"] = json!(["axis-beyond-i64max"]);
-    }
     let nn = n as i128;
     let extreme = |x: i128| x < -nn || x > nn;
     let nontrivial = match form.as_str() {
@@ -116,6 +111,7 @@ pub fn run(input: &Value) -> Case {
             format!("ty={}", t),
             format!("form={}", form),
             format!("res={}", match &r { None => "panic", Some(None) => "none", Some(Some(_)) => "some" }),
+            format!("n>i64max={}", n > i64::MAX as usize),
         ],
         nontrivial,
     }
@@ -143,7 +139,7 @@ pub fn generate(rng: &mut Rng, n: usize, tier: &str) -> Vec<Value> {
     let mut v = vec![];
     let sizes: [usize; 17] = [
         0, 1, 2, 3, 10, 100, 127, 128, 255, 256, 300, 1 << 31, (1 << 32) + 3, (i64::MAX as usize),
-        1 << 63, (1 << 63) + 5, usize::MAX, // beyond i64::MAX: class axis-beyond-i64max
+        1 << 63, (1 << 63) + 5, usize::MAX, // beyond i64::MAX (the former finding axis-beyond-i64max)
     ];
     // exhaustive small part: every form, n <= N, bounds in [-B, B], written as i8 and as usize where possible
     let (maxn, maxb) = if thorough { (12i128, 15i128) } else { (4, 6) };
